@@ -76,12 +76,15 @@ Proof.
   rewrite look_move, (under_prefixb_false _ _ Pb), Pa. reflexivity.
 Qed.
 
-Lemma force_clear_frame p f f' e q :
-  force_clear p f = (f', e) -> prefixb p q = false -> look f' q = look f q.
+Lemma force_clear_frame fl p f f' e q :
+  force_clear fl p f = (f', e) -> prefixb p q = false -> look f' q = look f q.
 Proof.
   unfold force_clear, t_stat. intros H P.
   destruct (look f p) as [[]|] eqn:L; simpl in H.
-  - inversion H; reflexivity.
+  - destruct fl; [|inversion H; reflexivity].
+    destruct (t_delete p f) as [f1|e1] eqn:E.
+    + inversion H; subst. eapply t_delete_frame; eauto.
+    + destruct (is_path_error e1); inversion H; reflexivity.
   - destruct (t_delete_tree p f) as [f1|e1] eqn:E.
     + inversion H; subst. eapply t_delete_tree_frame; eauto.
     + destruct (is_path_error e1); inversion H; reflexivity.
@@ -213,7 +216,7 @@ Proof.
     + intros q O. apply (with_fs_frame u _ u' e q H). intros f' E.
       eapply t_symlink_frame; [exact E|apply PO; [left; reflexivity|exact O]].
   - (* UploadFileRobust *)
-    destruct (force_clear p (ufs u)) as [f1 e1] eqn:E.
+    destruct (force_clear false p (ufs u)) as [f1 e1] eqn:E.
     destruct e1.
     + inversion H; subst. split; [split; assumption|reflexivity].
     + set (u1 := mkust f1 (pdel u) (pren u) (ntmp u)) in H.
@@ -226,7 +229,7 @@ Proof.
         { intros f' E'. simpl. eapply t_put_frame; eauto. }
         rewrite A. simpl. eapply force_clear_frame; eauto.
   - (* SymlinkRobust *)
-    destruct (force_clear link (ufs u)) as [f1 e1] eqn:E.
+    destruct (force_clear true link (ufs u)) as [f1 e1] eqn:E.
     destruct e1.
     + inversion H; subst. split; [split; assumption|reflexivity].
     + set (u1 := mkust f1 (pdel u) (pren u) (ntmp u)) in H.
@@ -307,13 +310,9 @@ Definition boundary (old new : tree) (r : path) : Prop :=
 Lemma create_cmd_roots p n : cmd_roots (create_cmd p n) = [p].
 Proof. destruct n; reflexivity. Qed.
 
-Definition kc_boundary (old new : tree) (r : path) : Prop :=
-  exists c, In c (d_kind_changed old new) /\ r = epath (c_old c) /\
-            is_ignored new (epath (c_new c)) = false.
-
 Theorem incr_roots_spec old new k r :
   In r (flat_map cmd_roots (upload_incremental old new k)) ->
-  r = [NMark] \/ is_ignored new r = false \/ boundary old new r \/ kc_boundary old new r.
+  r = [NMark] \/ is_ignored new r = false \/ boundary old new r.
 Proof.
   unfold upload_incremental. rewrite !flat_map_app. intros I.
   apply in_app_or in I as [I|I];
@@ -329,23 +328,24 @@ Proof.
     destruct (enode e); destruct Ic as [<-|[]]; destruct Ir as [<-|[]]; auto.
   - (* renamed *)
     unfold cmds_renamed in I. apply in_flat_map in I as (c & I & Ir).
-    apply in_flat_map in I as (ch & Ie & Ic).
+    apply in_flat_map in I as (ch & Ie & Ic). unfold both_ignored in Ic.
     destruct (is_ignored new (epath (c_old ch)) && is_ignored new (epath (c_new ch))) eqn:G; [destruct Ic|].
-    right; right; left. exists ch. split; [exact Ie|]. split; [|exact G].
-    apply in_app_or in Ic as [Ic|[<-|[]]].
-    + destruct (changed_content _ _); [|destruct Ic]. destruct Ic as [<-|[]].
-      destruct Ir as [<-|[]]. auto.
-    + destruct Ir as [<-|[<-|[]]]; auto.
+    right; right. exists ch. split; [exact Ie|]. split; [|exact G].
+    destruct (recreate ch).
+    + destruct Ic as [<-|[]]. destruct (enode (c_old ch)); destruct Ir as [<-|[]]; auto.
+    + apply in_app_or in Ic as [Ic|[<-|[]]].
+      * destruct (reupload ch); [|destruct Ic]. destruct Ic as [<-|[]].
+        destruct Ir as [<-|[]]. auto.
+      * destruct Ir as [<-|[<-|[]]]; auto.
   - simpl in I. destruct I.
   - (* kind changed *)
     unfold cmds_kind_changed in I. apply in_flat_map in I as (c & I & Ir).
     apply in_flat_map in I as (ch & Ie & Ic).
     destruct (is_ignored new (epath (c_new ch))) eqn:G; [destruct Ic|].
     destruct Ic as [<-|[<-|[]]].
-    + right; right; right. exists ch. split; [exact Ie|]. split; [|exact G].
-      destruct (enode (c_old ch)); destruct Ir as [<-|[]]; reflexivity.
+    + destruct (enode (c_old ch)); destruct Ir as [<-|[]]; auto.
     + rewrite create_cmd_roots in Ir. destruct Ir as [<-|[]]. auto.
-  - (* added *)
+  - (* added and re-created *)
     unfold cmds_added in I. apply in_flat_map in I as (c & I & Ir).
     apply in_flat_map in I as (e & Ie & Ic).
     destruct (is_ignored new (epath e)) eqn:G; [destruct Ic|].
@@ -388,9 +388,9 @@ Qed.
 Definition incr_body (old new : tree) : list cmd :=
   cmds_removed new (d_removed old new)
   ++ cmds_renamed new (d_renamed old new)
-  ++ [FinishRenames; FinishDeletions]
+  ++ [FinishDeletions; FinishRenames]
   ++ cmds_kind_changed new (d_kind_changed old new)
-  ++ cmds_added new (d_added old new)
+  ++ cmds_added new (d_created old new)
   ++ cmds_modified new (d_modified old new).
 
 Lemma upload_incremental_body old new k :
@@ -422,11 +422,13 @@ Proof.
   - unfold cmds_renamed in I. apply in_flat_map in I as (c & I & Ir).
     apply in_flat_map in I as (ch & Ie & Ic).
     destruct (CH ch (or_introl Ie)) as [A B].
-    destruct (_ && _); [destruct Ic|].
-    apply in_app_or in Ic as [Ic|[<-|[]]].
-    + destruct (changed_content _ _); [|destruct Ic]. destruct Ic as [<-|[]].
-      destruct Ir as [<-|[]]. auto.
-    + destruct Ir as [<-|[<-|[]]]; auto.
+    destruct (both_ignored new ch); [destruct Ic|].
+    destruct (recreate ch).
+    + destruct Ic as [<-|[]]. destruct (enode (c_old ch)); destruct Ir as [<-|[]]; auto.
+    + apply in_app_or in Ic as [Ic|[<-|[]]].
+      * destruct (reupload ch); [|destruct Ic]. destruct Ic as [<-|[]].
+        destruct Ir as [<-|[]]. auto.
+      * destruct Ir as [<-|[<-|[]]]; auto.
   - simpl in I. destruct I.
   - unfold cmds_kind_changed in I. apply in_flat_map in I as (c & I & Ir).
     apply in_flat_map in I as (ch & Ie & Ic).
@@ -437,10 +439,15 @@ Proof.
     + rewrite create_cmd_roots in Ir. destruct Ir as [<-|[]]. auto.
   - unfold cmds_added in I. apply in_flat_map in I as (c & I & Ir).
     apply in_flat_map in I as (e & Ie & Ic).
-    apply sort_by_In in Ie. apply filter_In in Ie as [Ie _].
+    apply sort_by_In in Ie.
+    assert (In (epath e) (map epath (ents new))) as IN.
+    { apply in_app_or in Ie as [Ie|Ie].
+      - apply sort_by_In in Ie. apply filter_In in Ie as [Ie _]. apply in_map; exact Ie.
+      - unfold recreated in Ie. apply in_map_iff in Ie as (ch & <- & Ich).
+        apply filter_In in Ich as [Ich _]. apply (CH ch (or_introl Ich)). }
     destruct (is_ignored new (epath e)); [destruct Ic|].
     destruct Ic as [<-|[]]. rewrite create_cmd_roots in Ir. destruct Ir as [<-|[]].
-    right. apply in_map; exact Ie.
+    right. exact IN.
   - unfold cmds_modified in I. apply in_flat_map in I as (c & I & Ir).
     apply in_flat_map in I as (ch & Ie & Ic).
     destruct (CH ch (or_intror (or_intror Ie))) as [A B].
